@@ -328,6 +328,7 @@ def gen_consts(repo):
     rio = Consts(os.path.join(repo, "cutplace/rowio.py"))
     out.append("(* rowio.py *)")
     out.append("Definition VALID_FIXED_ANY_LINE_DELIMITERS : list text := %s." % g_list(rio.get("_VALID_FIXED_ANY_LINE_DELIMITERS"), g_text))
+    out.append("Definition MAX_ODS_REPEATED_COUNT : Z := %s." % g_z(rio.get("_MAX_ODS_REPEATED_COUNT")))
 
     app = Consts(os.path.join(repo, "cutplace/applications.py"))
     out.append("(* applications.py *)")
